@@ -4,10 +4,20 @@
    Reading guide.  [P_queue.code] is the table of QueueProg programs compiled on THIS run from
    billiard/queues.py (Queue.put/get, JoinableQueue.put/task_done/join, SimpleQueue.put/get) and
    billiard/synchronize.py; p_feed (Queue._feed) is a hand translation emitted only while the
-   source text of _feed is the expected one.  [QReach M g]: g is reachable from the initial world
-   of a queue of capacity M by ANY number of processes -- each a main thread running any script
-   of put / get / task_done / join calls plus its feeder thread -- under ANY schedule (timed
-   acquires and polls may give up at any step), counters below SEM_VALUE_MAX.
+   source text of _feed is the expected one; QStartThread stands for the body of Queue._start_thread
+   (buffer.clear(), create + record + start the feeder thread; its shape is checked by the translator) and
+   QThreadJ for the test `self._thread is None`, compiled where the working tree has them.
+   [QReach M own g]: g is reachable from the initial world of a queue of capacity M by ANY number of
+   main threads -- each running any script of put / get / task_done / join calls, each with the feeder
+   thread (slot) its own call of _start_thread would start -- grouped into processes in ANY way (own q =
+   the process of main thread 2q and feeder slot 2q+1; own = [] is one main thread per process; the main
+   threads of one process share its queue object: buffer, _notempty, _thread) under ANY schedule (timed
+   acquires and polls may give up at any step), counters below SEM_VALUE_MAX.  "Producer" in the
+   ghost logs below = process: plog p is the order in which the puts of ALL threads of p appended.
+   spawned ps = the feeder slots started by the _start_thread calls of a process; fd_ftr = the message
+   held by THE feeder thread of a process; at_start t = main thread t stands at _start_thread (it has read
+   `self._thread is None` as true); qdormant = a feeder slot nobody has started; tput t / Subseq: see
+   C16_fifo_per_thread.
    Ghost logs: plog p = messages process p appended to its buffer (= accepted by its puts), in
    order; slog p = messages its feeder wrote to the pipe, in order; sendlog = all (process,
    message) pairs written to the pipe, in order; getlog = all messages read from it, in order;
@@ -23,7 +33,7 @@
    a get has received and not yet returned; rcount m res = number of finished get calls in res
    that returned m. *)
 From Coq Require Import ZArith List Bool.
-From BV Require Import Model.SemProg Model.QueueProg Model.QueueCode Proofs.SemProgProofs Proofs.QueueInvProofs Proofs.QueueProofs.
+From BV Require Import Lib.Cases Model.SemProg Model.QueueProg Model.QueueCode Model.QueueCheck Proofs.SemProgProofs Proofs.QueueInvProofs Proofs.QueueStartProofs Proofs.QueueProofs.
 From BV Require Gen.P_queue.
 Import ListNotations.
 Open Scope Z_scope.
@@ -39,18 +49,18 @@ Print Assumptions C16_world_is_model.
 
 (* ---- the invariant holds in every reachable state and is kept by every step (so no release
    of the capacity semaphore or of a lock ever raises) *)
-Theorem C16_invariant : forall M g, QReach M g -> QInv M g.
+Theorem C16_invariant : forall M own g, QReach M own g -> QInv M own g.
 Proof. exact qreach_inv. Qed.
 Print Assumptions C16_invariant.
 
-Theorem C16_step : forall M g i go g' e, QReach M g -> qsmall g ->
-    qstep P_queue.code g i go = Some (g', e) -> QInv M g'.
+Theorem C16_step : forall M own g i go g' e, QReach M own g -> qsmall g ->
+    qstep P_queue.code g i go = Some (g', e) -> QInv M own g'.
 Proof. exact G_queue_step. Qed.
 Print Assumptions C16_step.
 
 (* capacity accounting: sem + buffered + in pipe + in transit = maxsize; hence at most maxsize
    items are ever waiting *)
-Theorem C16_capacity : forall M g, QReach M g ->
+Theorem C16_capacity : forall M own g, QReach M own g ->
     qv 0 g + sumz blen (procs g) + Z.of_nat (length (pipe g)) + sumz qt_tr (qthr g) = M /\
     0 <= qv 0 g /\
     sumz blen (procs g) + Z.of_nat (length (pipe g)) <= M.
@@ -63,21 +73,31 @@ Print Assumptions C16_capacity.
    is FIFO; the send log is an ORDER-PRESERVING merge of the producers' send logs: the entries
    written by p's feeder are, in order, exactly slog p (this replaces the former count identity,
    which is kept as the last conjunct) *)
-Theorem C16_fifo : forall M g, QReach M g ->
+Theorem C16_fifo : forall M own g, QReach M own g ->
     (forall p, pk (plog (nth p (procs g) dps)) =
-               slog (nth p (procs g) dps) ++ pk (ftr (nth (2 * p + 1) (qthr g) dqt)) ++ pk (buf (nth p (procs g) dps))) /\
+               slog (nth p (procs g) dps) ++ pk (fd_ftr (nth p (procs g) dps) (qthr g)) ++ pk (buf (nth p (procs g) dps))) /\
     map snd (sendlog g) = getlog g ++ pipe g /\
     (forall p, from_proc p (sendlog g) = slog (nth p (procs g) dps)) /\
     (forall m, zcnt m (map snd (sendlog g)) = sumz (fun ps => zcnt m (slog ps)) (procs g)).
 Proof. exact G_queue_fifo. Qed.
 Print Assumptions C16_fifo.
 
+(* order PER (PROCESS, THREAD): tput t = the messages that the put calls of main thread t have appended to
+   the buffer of its process, in the order of t's calls (those of its finished puts that returned None, then
+   the message of a put in progress that is past its append).  It is a subsequence of the append log of t's
+   process -- which C16_fifo carries IN ORDER to the feeder, the pipe and the receive log.  So the objects one
+   producer thread put come out in the order it put them, however the threads of its process interleave. *)
+Theorem C16_fifo_per_thread : forall M own g i t, QReach M own g -> nth_error (qthr g) i = Some t ->
+    Subseq (tput t) (plog (nth (qproc t) (procs g) dps)).
+Proof. exact G_thread_order. Qed.
+Print Assumptions C16_fifo_per_thread.
+
 (* no loss, no duplication, for every message whose serialisation succeeds: with its multiplicity
    among the accepted puts it is exactly: received + in the pipe + held by a feeder + buffered *)
-Theorem C16_no_loss_no_dup : forall M g m, QReach M g -> picklable m = true ->
+Theorem C16_no_loss_no_dup : forall M own g m, QReach M own g -> picklable m = true ->
     sumz (fun ps => zcnt m (plog ps)) (procs g) =
     zcnt m (getlog g) + zcnt m (pipe g)
-    + psum (fun p => zcnt m (ftr (nth (2 * p + 1) (qthr g) dqt))) (length (procs g))
+    + psum (fun p => zcnt m (fd_ftr (nth p (procs g) dps) (qthr g))) (length (procs g))
     + sumz (fun ps => zcnt m (buf ps)) (procs g).
 Proof. exact G_queue_no_loss_no_dup. Qed.
 Print Assumptions C16_no_loss_no_dup.
@@ -85,7 +105,7 @@ Print Assumptions C16_no_loss_no_dup.
 (* what get RETURNS: every message read from the pipe has been returned by exactly one finished
    get call or is held by a get between its receive and its return (m = -5 is the code of the
    exception Empty in the result lists) *)
-Theorem C16_get_returns_received : forall M g m, QReach M g -> m <> E_EMPTY ->
+Theorem C16_get_returns_received : forall M own g m, QReach M own g -> m <> E_EMPTY ->
     zcnt m (getlog g) =
     sumz (fun t => rcount m (qresults t)) (qthr g) + sumz (fun t => zcnt m (gheld t)) (qthr g).
 Proof. exact G_get_returns_received. Qed.
@@ -93,11 +113,11 @@ Print Assumptions C16_get_returns_received.
 
 (* put to get: each message, with its multiplicity among the accepted puts, is exactly: returned
    by a get + held by a get about to return it + in the pipe + held by a feeder + buffered *)
-Theorem C16_put_get_exact : forall M g m, QReach M g -> m <> E_EMPTY -> picklable m = true ->
+Theorem C16_put_get_exact : forall M own g m, QReach M own g -> m <> E_EMPTY -> picklable m = true ->
     sumz (fun ps => zcnt m (plog ps)) (procs g) =
     sumz (fun t => rcount m (qresults t)) (qthr g) + sumz (fun t => zcnt m (gheld t)) (qthr g)
     + zcnt m (pipe g)
-    + psum (fun p => zcnt m (ftr (nth (2 * p + 1) (qthr g) dqt))) (length (procs g))
+    + psum (fun p => zcnt m (fd_ftr (nth p (procs g) dps) (qthr g))) (length (procs g))
     + sumz (fun ps => zcnt m (buf ps)) (procs g).
 Proof. exact G_put_get_exact. Qed.
 Print Assumptions C16_put_get_exact.
@@ -108,17 +128,17 @@ Print Assumptions C16_put_get_exact.
    pc 14 holds its token "in transit" and its next step releases it: C16_step); by
    C16_no_loss_no_dup / C16_put_get_exact / C16_fifo every other object is accounted for, in
    order.  A feeder never ends, and what it drops is only what it could not serialise. *)
-Theorem C16_unpicklable_is_the_only_loss : forall M g m, QReach M g -> picklable m = false ->
+Theorem C16_unpicklable_is_the_only_loss : forall M own g m, QReach M own g -> picklable m = false ->
     zcnt m (map snd (sendlog g)) = 0 /\ zcnt m (getlog g) = 0 /\ zcnt m (pipe g) = 0.
 Proof. exact G_unpicklable_never_sent. Qed.
 Print Assumptions C16_unpicklable_is_the_only_loss.
 
-Theorem C16_feeder_never_ends : forall M g t, QReach M g -> In t (qthr g) -> qfeeder t = true ->
+Theorem C16_feeder_never_ends : forall M own g t, QReach M own g -> In t (qthr g) -> qfeeder t = true ->
     qfin t = false /\ qexited P_queue.code t = false.
 Proof. exact G_feeder_never_ends. Qed.
 Print Assumptions C16_feeder_never_ends.
 
-Theorem C16_feeder_drops_only_unpicklable : forall M g t, QReach M g -> In t (qthr g) ->
+Theorem C16_feeder_drops_only_unpicklable : forall M own g t, QReach M own g -> In t (qthr g) ->
     qfeeder t = true -> qpc t = 14%nat -> picklable (r2 (qrg t)) = false.
 Proof. exact G_feeder_drops_only_unpicklable. Qed.
 Print Assumptions C16_feeder_drops_only_unpicklable.
@@ -128,7 +148,7 @@ Print Assumptions C16_feeder_drops_only_unpicklable.
    can move, both puts returned None, the feeder is alive and asleep, it wrote 12 and only 12,
    the get RETURNED 12, buffer and pipe are empty and the capacity semaphore is back at 2 *)
 Example C16_later_put_is_delivered :
-  QReach 2 qlost_state /\
+  QReach 2 [] qlost_state /\
   (forall i go, qstep P_queue.code qlost_state i go = None) /\
   map snd (qresults (nth 0 (qthr qlost_state) dqt)) = [V_NONE; V_NONE] /\
   plog (nth 0 (procs qlost_state) dps) = [1000; 12] /\
@@ -139,6 +159,80 @@ Example C16_later_put_is_delivered :
 Proof. exact qlost_now_delivered. Qed.
 Print Assumptions C16_later_put_is_delivered.
 
+(* ---- SEVERAL PRODUCER THREADS OF ONE PROCESS: Queue._start_thread.  (All theorems of this file hold
+   for any grouping `own` of the main threads into processes; the ones below are about what the threads
+   of one process share.)
+   The test-and-start is atomic under _notempty: a main thread that has read `self._thread is None` as
+   true and has not yet run _start_thread holds the lock of its process's _notempty (value 0), no feeder of
+   its process has been started, nothing is buffered, and no other thread holds that lock -- in particular
+   no second thread of the process stands at _start_thread. *)
+Theorem C16_start_is_atomic_under_notempty : forall M own g i t, QReach M own g ->
+    nth_error (qthr g) i = Some t -> at_start t ->
+    qv (nls (qproc t)) g = 0 /\
+    spawned (nth (qproc t) (procs g) dps) = [] /\ buf (nth (qproc t) (procs g) dps) = [] /\
+    (forall j u, nth_error (qthr g) j = Some u -> j <> i -> qt_nl (qproc t) u = 0 /\ ~ (qproc u = qproc t /\ at_start u)).
+Proof. exact G_start_under_lock. Qed.
+Print Assumptions C16_start_is_atomic_under_notempty.
+
+(* at most ONE feeder thread is ever started per process: the list of started feeder slots of a process
+   has at most one element, and two feeder threads of one process that can run are the same thread *)
+Theorem C16_one_feeder_per_process : forall M own g p, QReach M own g ->
+    (length (spawned (nth p (procs g) dps)) <= 1)%nat.
+Proof. exact G_one_feeder_started. Qed.
+Print Assumptions C16_one_feeder_per_process.
+
+Theorem C16_running_feeder_is_unique : forall M own g i j ti tj, QReach M own g ->
+    nth_error (qthr g) i = Some ti -> nth_error (qthr g) j = Some tj ->
+    qfeeder ti = true -> qfeeder tj = true -> qproc ti = qproc tj ->
+    qdormant g i ti = false -> qdormant g j tj = false -> i = j.
+Proof. exact G_feeder_unique. Qed.
+Print Assumptions C16_running_feeder_is_unique.
+
+(* the buffer is never cleared while it holds an item: a step whose event is a _start_thread (op 7) is taken
+   by a thread standing at _start_thread, its buffer was empty and its buffer.clear() dropped 0 items *)
+Theorem C16_start_thread_clears_nothing : forall M own g i go g' e, QReach M own g ->
+    qstep P_queue.code g i go = Some (g', e) -> snd (fst e) = 7 ->
+    exists t, nth_error (qthr g) i = Some t /\ at_start t /\ e = (i, THREAD, 7, 0) /\
+              buf (nth (qproc t) (procs g) dps) = [].
+Proof. exact G_start_step_clears_nothing. Qed.
+Print Assumptions C16_start_thread_clears_nothing.
+
+(* the same two facts about the EVENT TRACE of every run, in the form of the monitors that
+   Model/QueueCheck.v evaluates on the traces of the real classes: no _start_thread event dropped an item
+   (clear_ok) and every process has at most one _start_thread event (one_feeder_ok) *)
+Theorem C16_every_trace_passes_the_start_monitors : forall M own scripts sched g es ok,
+    0 <= M -> Forall (Forall okq) scripts -> own_ok (length scripts) own ->
+    gen_qrun_small (gen_qinit M own scripts) sched ->
+    qrun P_queue.code (gen_qinit M own scripts) sched = (g, es, ok) ->
+    clear_ok es = true /\ one_feeder_ok own (length scripts) es = true.
+Proof. exact G_trace_starts_ok. Qed.
+Print Assumptions C16_every_trace_passes_the_start_monitors.
+
+(* non-vacuity (evaluated): capacity 2, main threads 0 and 2 are two threads of process 0, each doing the
+   first put on the fresh queue, process 2 gets twice.  In the middle of the race thread 0 stands at
+   _start_thread holding the lock and thread 2, which already has its capacity token, cannot take it; at
+   the end ONE feeder was started (slot 1; slot 3 never ran), both puts returned None, the feeder wrote
+   11, 12 in append order, the consumer returned 11 then 12, nothing is left, the capacity is whole, and
+   the only _start_thread event dropped 0 items *)
+Example C16_two_threads_of_one_process :
+  QReach 2 qtwo_own qtwo_state /\ QReach 2 qtwo_own qtwo_mid /\
+  (at_start (nth 0 (qthr qtwo_mid) dqt) /\ qv (nls 0) qtwo_mid = 0 /\
+   qstep P_queue.code qtwo_mid 2 true = None /\ qpc (nth 2 (qthr qtwo_mid) dqt) = 3%nat) /\
+  snd qtwo_run = true /\
+  (forall i go, qstep P_queue.code qtwo_state i go = None) /\
+  spawned (nth 0 (procs qtwo_state) dps) = [1%nat] /\
+  qdormant qtwo_state 3 (nth 3 (qthr qtwo_state) dqt) = true /\
+  map snd (qresults (nth 0 (qthr qtwo_state) dqt)) = [V_NONE] /\
+  map snd (qresults (nth 2 (qthr qtwo_state) dqt)) = [V_NONE] /\
+  plog (nth 0 (procs qtwo_state) dps) = [11; 12] /\
+  tput (nth 0 (qthr qtwo_state) dqt) = [11] /\ tput (nth 2 (qthr qtwo_state) dqt) = [12] /\
+  sendlog qtwo_state = [(0%nat, 11); (0%nat, 12)] /\
+  map snd (qresults (nth 4 (qthr qtwo_state) dqt)) = [12; 11] /\ getlog qtwo_state = [11; 12] /\
+  buf (nth 0 (procs qtwo_state) dps) = [] /\ pipe qtwo_state = [] /\ qv 0 qtwo_state = 2 /\
+  filter is_start (snd (fst qtwo_run)) = [(0%nat, THREAD, 7, 0)].
+Proof. exact qtwo_witness. Qed.
+Print Assumptions C16_two_threads_of_one_process.
+
 (* ---- JoinableQueue.join / task_done (PARTIAL: the counter and the two tests; the sleeping path
    of join -- wait / notify_all of the inner Condition -- is covered by monitors and by the
    search on the generated program only).  qt_unf t = (finished JoinableQueue.put calls of t that
@@ -146,13 +240,13 @@ Print Assumptions C16_later_put_is_delivered.
    past its _unfinished_tasks.release() - 1 if t is a task_done past its successful
    _unfinished_tasks.acquire(False).  So  sumz qt_unf (qthr g)  is the number of items put and
    not yet matched by a task_done, and it is what the semaphore holds: *)
-Theorem C16_unfinished_count : forall M g, QReach M g -> qv 3 g = sumz qt_unf (qthr g) /\ 0 <= qv 3 g.
+Theorem C16_unfinished_count : forall M own g, QReach M own g -> qv 3 g = sumz qt_unf (qthr g) /\ 0 <= qv 3 g.
 Proof. exact G_unfinished_count. Qed.
 Print Assumptions C16_unfinished_count.
 
 (* task_done raises ValueError("called too many times") exactly when every item put has already
    been matched; otherwise it takes one *)
-Theorem C16_task_done_raises_iff_matched : forall M g i t g' e, QReach M g ->
+Theorem C16_task_done_raises_iff_matched : forall M own g i t g' e, QReach M own g ->
     nth_error (qthr g) i = Some t -> qfin t = false -> qfeeder t = false ->
     qcid t = 4%nat -> qpc t = 1%nat ->
     qstep P_queue.code g i true = Some (g', e) ->
@@ -162,7 +256,7 @@ Print Assumptions C16_task_done_raises_iff_matched.
 
 (* join's test, made under the condition's lock, reads "zero" (join then returns without
    waiting) exactly when every item put has been matched by a task_done *)
-Theorem C16_join_exact_partial : forall M g i t g' e, QReach M g ->
+Theorem C16_join_exact_partial : forall M own g i t g' e, QReach M own g ->
     nth_error (qthr g) i = Some t -> qfin t = false -> qfeeder t = false ->
     qcid t = 5%nat -> qpc t = 1%nat ->
     qstep P_queue.code g i true = Some (g', e) ->
@@ -171,7 +265,7 @@ Proof. exact G_join_test_iff_matched. Qed.
 Print Assumptions C16_join_exact_partial.
 
 (* reader lock, writer lock and each process's _notempty lock have one holder *)
-Theorem C16_locks : forall M g, QReach M g ->
+Theorem C16_locks : forall M own g, QReach M own g ->
     qv 1 g + sumz qt_rl (qthr g) = 1 /\ qv 2 g + sumz qt_wl (qthr g) = 1 /\
     forall p, (p < length (procs g))%nat -> qv (nls p) g + sumz (qt_nl p) (qthr g) = 1.
 Proof. exact G_queue_locks. Qed.
@@ -179,7 +273,7 @@ Print Assumptions C16_locks.
 
 (* Full: on the scheduler choice `go` a put's capacity acquire fails exactly when the
    semaphore is 0 (with `timeout` a timed put may give up at its deadline) *)
-Theorem C16_full_only_when_zero : forall M g i t g' e, QReach M g ->
+Theorem C16_full_only_when_zero : forall M own g i t g' e, QReach M own g ->
     nth_error (qthr g) i = Some t -> qfin t = false -> qfeeder t = false ->
     (qcid t = 0%nat \/ qcid t = 3%nat) -> qpc t = 0%nat ->
     qstep P_queue.code g i true = Some (g', e) ->
@@ -197,7 +291,7 @@ Proof. exact G_empty_only_when_nothing. Qed.
 Print Assumptions C16_empty_only_when_nothing.
 
 (* a put appends exactly the message it was given *)
-Theorem C16_put_appends_its_argument : forall M g t, QReach M g -> In t (qthr g) ->
+Theorem C16_put_appends_its_argument : forall M own g t, QReach M own g -> In t (qthr g) ->
     qfeeder t = false -> qfin t = false -> (qcid t = 0%nat \/ qcid t = 3%nat) ->
     (qpc t = 0%nat \/ qpc t = 3%nat \/ qpc t = 6%nat) -> r2 (qrg t) = a2_of (qcur t).
 Proof. exact G_put_appends_its_argument. Qed.
@@ -207,6 +301,7 @@ Print Assumptions C16_put_appends_its_argument.
    pipe and is held by the consumer (in transit), the second producer is blocked on the full
    queue *)
 Example C16_witness :
-  QReach 1 qex_state /\ qv 0 qex_state = 0 /\ getlog qex_state = [11] /\ sendlog qex_state = [(0%nat, 11)] /\
+  QReach 1 [] qex_state /\ qv 0 qex_state = 0 /\ getlog qex_state = [11] /\ sendlog qex_state = [(0%nat, 11)] /\
   sumz qt_tr (qthr qex_state) = 1 /\ pipe qex_state = [].
 Proof. exact qex_witness. Qed.
+Print Assumptions C16_witness.
